@@ -3,7 +3,7 @@
 tier=$1; shift
 here=$(cd "$(dirname "$0")/.." && pwd)
 for seed in "$@"; do
-  for p in C01 C02 C03 C04 C05 C06 C07 C08 C09 C10 C11 C12 C13 C14 C15 C16 C17 C18 C19 C20; do
+  for p in ${PROPS:-C01 C02 C03 C04 C05 C06 C07 C08 C09 C10 C11 C12 C13 C14 C15 C16 C17 C18 C19 C20}; do
     start=$(date +%s)
     out=$(VERIF_SEED=$seed "$here/check" $p $tier 2>&1); rc=$?
     end=$(date +%s)
